@@ -1,11 +1,15 @@
 (* Extraction of the executable model to OCaml (ExtrOcamlBasic only;
    Z, positive, nat stay Coq datatypes; no Extract Constant). *)
 From Coq Require Import Extraction ExtrOcamlBasic.
-From SSL.Model Require Import Base Ty.
+From SSL.Model Require Import Base Ty Float Value Ops.
 Extraction Blacklist List String Int.
 Extraction "model.ml"
   ident_eqb all2 assoc wrap64 in_i64b
   size ty_eqb matches concat concat_all conjoin
   index_result element_type fn_return_type mut_element_type mut_element_type_spec
   params flatten_tuple is_function is_tuple is_mut is_iterator is_struct can_be_indexed
-  tuple_len min_tuple_len iter_element tuple_element_at field_type has_field wf_ty.
+  tuple_len min_tuple_len iter_element tuple_element_at field_type has_field wf_ty
+  CANON_NAN f_is_nan fcanon F_ZERO F_ONE
+  as_type arr_of val_eqb val_eqb_derived content_in has_type wf_val of_type
+  op_exec unop_exec assign_base can_be_used_int can_be_used_num can_be_used_add can_be_used_bit
+  add_return_type.
